@@ -312,7 +312,7 @@ def real_schedule(case):
         parent_params['notify'] = 93
     parent = _Obj(id=90, root_execution_id=case['parent_root'], params=parent_params, workflow_name='wb.p')
     task_ex = _Obj(id=91, workflow_execution=parent)
-    wf_def = _Obj(id='def-1', namespace='defns', updated_at=None, name='child')
+    wf_def = _Obj(id='def-1', namespace='defns', updated_at=None, checksum=None, name='child')
     child_spec = _Obj(get_input=lambda: {k: None for k in case['declared']})
     fake_parser = _Obj(get_workflow_spec_by_execution_id=lambda i: _Obj(get_name=lambda: 'p'),
                        get_workflow_spec_by_definition_id=lambda i, u: child_spec)
